@@ -504,16 +504,22 @@ class Grid:
                     possible_metric_vars = [
                         self._metrics[ac] for ac in axis_combinations
                     ]
-                    for possible_combinations in itertools.product(
-                        *possible_metric_vars
-                    ):
+                    if all(possible_metric_vars):
+                        # for every block of the partition: the metric registered at the position
+                        # of the array if there is one, otherwise the last one registered
+                        possible_combinations = tuple(
+                            next(
+                                (mv for mv in mvs if set(mv.dims).issubset(array_dims)),
+                                mvs[-1],
+                            )
+                            for mvs in possible_metric_vars
+                        )
                         metric_dims = set(
                             [d for mv in possible_combinations for d in mv.dims]
                         )
                         if metric_dims.issubset(array_dims):
                             # Condition 3: use provided metrics with matching dimensions to calculate for required metric
                             metric_vars = possible_combinations
-                            break
                         else:
                             # Condition 4: metrics in the wrong position (must interpolate before multiplying)
                             possible_dims = [pc.dims for pc in possible_combinations]
